@@ -137,7 +137,7 @@ def s_guard_deref(ex, st, call):
     return Ref(c)
 
 
-@rule(r'^<(PathBuf|String|std::path::PathBuf|std::string::String|lsm_tree::Slice|Slice|StrView|byteview::StrView|ByteView|Cow<.*>) as (Deref|AsRef<.*>|Borrow<.*>)>::(deref|as_ref|borrow)$',
+@rule(r'^<(PathBuf|String|std::path::PathBuf|std::string::String|lsm_tree::Slice|Slice|StrView|byteview::StrView|ByteView) as (Deref|AsRef<.*>|Borrow<.*>)>::(deref|as_ref|borrow)$',
       r'^<(&)?(Path|str|\[u8\]|std::path::Path) as AsRef<.*>>::as_ref$',
       r'^<&(mut )?.* as (Deref|AsRef<.*>|Borrow<.*>)>::(deref|as_ref|borrow)$')
 def s_view(ex, st, call):
